@@ -90,6 +90,16 @@ fn interp(e: &mut EGraph, s: &Sched, budget: &mut usize) -> Result<bool, String>
     }
 }
 
+/// upper bound on the number of single iterations a schedule can run (saturate counted as 40 rounds)
+fn sched_cost(s: &Sched) -> usize {
+    match s {
+        Sched::Run(..) => 1,
+        Sched::Seq(v) => v.iter().map(sched_cost).sum(),
+        Sched::Repeat(n, v) => (*n as usize) * v.iter().map(sched_cost).sum::<usize>(),
+        Sched::Saturate(v) => 40 * v.iter().map(sched_cost).sum::<usize>(),
+    }
+}
+
 fn gen_sched(rng: &mut Rng, rulesets: &[String], depth: usize, saturate_ok: bool) -> Sched {
     let run = |rng: &mut Rng| Sched::Run(rng.pick(rulesets).clone(), None);
     if depth == 0 {
@@ -356,11 +366,18 @@ pub fn run(a: &Args) -> Report {
             let rs: Vec<String> = sig.rulesets.clone();
             let sched = if k == 0 {
                 // the shape in which an inner repeat stops early while the outer one must go on
-                let inner: Vec<Sched> = rs.iter().map(|r| Sched::Repeat(2 + rng.below(4) as u32, vec![Sched::Run(r.clone(), None)])).collect();
-                Sched::Repeat(3 + rng.below(6) as u32, vec![Sched::Seq(inner)])
+                let (ri, ro) = if all_safe { (2 + rng.below(4) as u32, 3 + rng.below(6) as u32) } else { (2, 2) };
+                let inner: Vec<Sched> = rs.iter().map(|r| Sched::Repeat(ri, vec![Sched::Run(r.clone(), None)])).collect();
+                Sched::Repeat(ro, vec![Sched::Seq(inner)])
             } else {
                 gen_sched(&mut rng, &rs, 3, all_safe && saturate_terminates)
             };
+            // growth guard (deterministic, program-dependent only): rules that build new terms can
+            // multiply the database every iteration, so only short schedules are run on them
+            if sched_cost(&sched) > if all_safe { 400 } else { 10 } || base.num_tuples() > 400 {
+                rep.count("nested_schedules_skipped_growth_guard", 1);
+                continue;
+            }
             let text = format!("(run-schedule {sched})");
             let mut e1 = base.clone();
             let mut e2 = base.clone();
